@@ -627,6 +627,7 @@ func (p *Program) constructedKinds(typ, field string) []string {
 // literal, or the value the path facts give the expression there (`Op: tok.Kind` under a guard on tok.Kind).
 type kindsClient struct {
 	BaseClient
+	InlinePredicates
 	p     *Program
 	typ   string
 	field string
